@@ -31,7 +31,7 @@ def to_coq(v) -> str:
     if isinstance(v, int):
         return f"A {v}" if v >= 0 else f"A ({v})"
     if isinstance(v, bytes):
-        return "B [" + ";".join(str(b) for b in v) + "]%N"
+        return 'Bx "' + v.hex() + '"'
     return "L [" + "; ".join(to_coq(x) for x in v) + "]"
 
 
